@@ -518,6 +518,24 @@ func (g *G) leverage(max int64) sdkmath.LegacyDec {
 	}
 }
 
+// lpStopLoss: half of the time an arbitrary level, otherwise a level placed relative to the pool's LP token
+// price as the chain computes it now: 0.1 % – 10 % below it (a healthy position one small move away from its
+// trigger) or just above it (eligible at once).
+func (g *G) lpStopLoss(poolID uint64) sdkmath.LegacyDec {
+	if g.Bool("sl/rel") {
+		if p, found := g.W.App.AmmKeeper.GetPool(g.W.ReadCtx(), poolID); found {
+			if price, err := p.LpTokenPrice(g.W.ReadCtx(), g.W.App.OracleKeeper, g.W.App.AccountedPoolKeeper); err == nil && price.IsPositive() {
+				bp := int64(g.Int("sl/bp", 10, 1000)) // basis points
+				if g.Int("sl/above", 0, 4) == 0 {
+					return price.MulInt64(10000 + bp/10).QuoInt64(10000)
+				}
+				return price.MulInt64(10000 - bp).QuoInt64(10000)
+			}
+		}
+	}
+	return sdkmath.LegacyNewDecWithPrec(int64(g.Int("slp", 1, 300)), 2)
+}
+
 func genLPOpen(g *G) *Op {
 	lp := g.leveragePool()
 	if lp == nil {
@@ -528,7 +546,7 @@ func genLPOpen(g *G) *Op {
 	sl := sdkmath.LegacyZeroDec()
 	if g.Int("sl", 0, 3) == 0 {
 		// stop-loss price is an LP share price; typical 0.5..1.5
-		sl = sdkmath.LegacyNewDecWithPrec(int64(g.Int("slp", 1, 300)), 2)
+		sl = g.lpStopLoss(lp.AmmPoolId)
 	}
 	asset := ptypes.BaseCurrency
 	if g.Int("wrongasset", 0, 15) == 0 {
@@ -582,7 +600,7 @@ func genLPUpdateStopLoss(g *G) *Op {
 	if p == nil {
 		return nil
 	}
-	price := sdkmath.LegacyNewDecWithPrec(int64(g.Int("slp", 1, 300)), 2)
+	price := g.lpStopLoss(p.AmmPoolId)
 	signer := owner
 	if g.Int("foreign", 0, 9) == 0 {
 		signer = g.User()
